@@ -15,6 +15,9 @@ type ProcCore struct {
 	Resolve func(proc, cb, name string, cur any) any
 	// PropsOK: PostProcessAfterInstantiation returns true.
 	PropsOK bool
+	// PropsRet: "" | "empty" | "same" - what PostProcessProperties hands back.
+	PropsRet string
+
 	// Act performs what else the processor does inside (cb, component name): look another
 	// component up through the container. Its error is the callback's error.
 	Act func(proc, cb, name string) error
@@ -38,6 +41,10 @@ func (p *ProcCore) PostProcessComponentFactory(factory container.Factory) error 
 	if p.H.OrdFinal != nil {
 		p.H.Ord = *p.H.OrdFinal
 	}
+	// the hook takes stock of what is registered (all of it is, whatever the order in which
+	// the registry listed the components)
+	p.H.SeenComponents = len(factory.GetRegisteredComponents())
+	p.H.SeenScanners = len(factory.GetDefinitionRegistryPostProcessors())
 	return nil
 }
 
@@ -94,6 +101,12 @@ func (p *InstCore) PostProcessProperties(properties []*component_definition.Prop
 	}
 	if err := p.act("props", componentName); err != nil {
 		return nil, err
+	}
+	switch p.PropsRet {
+	case "empty":
+		return []*component_definition.Property{}, nil
+	case "same":
+		return properties, nil
 	}
 	return nil, nil
 }
